@@ -130,11 +130,13 @@ def run(tier):
     done = stats.get("items", 0)
     wire = agent_wire(ck, tier)
     ck.notes.append({"agent_wire": wire})
+    cred = turn_credentials(ck, tier)
+    ck.notes.append({"turn_credentials": cred})
     ck.notes.append({"harness": stats})
     ck.cov["traces_validated_against_impl"] = done
     ck.cov["evaluations"] = stats.get("encoded", 0) + stats.get("decoded", 0) + stats.get("turn_items", 0) + \
         3 * stats.get("cand_items", 0) + 2 * stats.get("prio_items", 0) + stats.get("sets_items", 0) + \
-        wire["messages_checked"]
+        wire["messages_checked"] + cred["messages_checked"]
     ck.cov["distinct_nontrivial"] = done - stats.get("cand_out_of_domain", 0)
     ck.cov["exhaustive"] = False      # exploration over a model-defined boundary product, not all byte strings
     ck.cov["rule"] = ("every element of the model-defined domain (message shapes: 28 method x class types x attribute "
@@ -149,6 +151,9 @@ def run(tier):
         "long-term key); the model's layout is additionally checked against its bytes (ModelVsReference = tool error)",
         "candidate priorities are taken from the RFC 8445 range 0..2^31-1 (rank table in harness/src/bin/stunwire.rs)",
         "TURN client messages are captured by a harness fake server on loopback UDP/TCP; ICE server URI parsing is not covered",
+        "TURN credential state: Turn.tla behaviours (Allocate challenge, 438 same / new realm, 401 new realm, two refresh rounds, "
+        "permission, channel binding, Send / ChannelData, deallocation) on the real client against the fake TURN server; every "
+        "authenticated message must verify under MD5(user : its own REALM attribute : password) (rule LongTermKeyMatchesRealm)",
         "agent wire messages: the connectivity checks, nominations, keepalives and Binding responses a real IceTransport "
         "sends in every edge of a small IceAgent model (udp + tcp sockets) are verified with the reference crate: MI under the "
         "right short-term key, FINGERPRINT, USERNAME, PRIORITY, role attributes, XOR-MAPPED-ADDRESS",
@@ -211,13 +216,81 @@ def agent_wire(ck, tier):
     return {"scenarios": res["counts"]["EDGE"], "messages_checked": checked}
 
 
+def turn_credentials(ck, tier):
+    """The TURN credential STATE (realm, nonce, long-term key) across exchanges: Turn.tla (the engine of EXT05) with
+    the reactions ok / 401 with a new realm (the Allocate challenge) / 438 same realm / 438 new realm / 401 new realm,
+    two refresh rounds, on a real IceTransport + TurnClient against the fake TURN server. Judged here under C16:
+    rule LongTermKeyMatchesRealm - the MESSAGE-INTEGRITY of every authenticated message the client sends verifies
+    under MD5(user : REALM attribute of that message : password) (checked per message, independently of the model) -
+    and rule TurnCredentialState - REALM / NONCE / key generation are the ones the model predicts."""
+    import EXT05
+    vlib.build_harness(["turnclient"])
+    consts = dict(Transports='{"udp"}', Lifetimes="{600}", MaxRefresh=2 if tier == "quick" else 3, MaxDrops=0,
+                  Reacts='{"ok", "e401r", "e438", "e438r"}' if tier == "quick" else '{"ok", "e401", "e401r", "e438", "e438r"}',
+                  AllocLen=2, RefreshFaults=1 if tier == "quick" else 2)
+    cfg = os.path.join(vlib.SPEC, f"MC_Turn_C16_{tier}.gen.cfg")
+    EXT05.write_turn_cfg(cfg, consts, emit=True)
+    runs = os.path.join(ck.dir, f"turn_cred_runs_{tier}.ndjson")
+    try:
+        res = vlib.tlc("MC_Turn", os.path.basename(cfg), tags=("RUN",), sinks={"RUN": runs}, timeout=1800,
+                       tag=f"MC_Turn_C16_{tier}")
+    finally:
+        try:
+            os.remove(cfg)
+        except OSError:
+            pass
+    vlib.tlc_ok(res, "TURN credential state")
+    ck.add_tlc(res, "Turn.tla credential-state behaviours")
+    os.environ["VERIF_TURN_QUIET_MS"] = "2"
+    try:
+        rows = EXT05.run_shards("turnclient", runs, ck, "turn_cred", shards=16)
+    finally:
+        os.environ.pop("VERIF_TURN_QUIET_MS", None)
+    os.remove(runs)
+    stats = {}
+    for r in rows:
+        t = r.get("type")
+        if t == "summary":
+            for k, v in r["stats"].items():
+                stats[k] = stats.get(k, 0) + v
+        elif t == "wire":
+            ck.divergence({"sub": "turn", "rule": "LongTermKeyMatchesRealm", "method": r["detail"].get("method")},
+                          {"rule": "LongTermKeyMatchesRealm", "detail": r["detail"], "script": r.get("script"),
+                           "case": {"part": "turncred", "rec": r.get("case")}})
+        elif t == "drift":
+            d = r["why"].get("detail", "")
+            if any(w in d for w in ("MESSAGE-INTEGRITY", "REALM", "NONCE", "USERNAME", "FINGERPRINT", "credentials")):
+                ck.divergence({"sub": "turn", "rule": "TurnCredentialState", "op": r["why"].get("op")},
+                              {"rule": "TurnCredentialState", "detail": r["why"],
+                               "script": [(s["op"], s["reacts"]) for s in r["case"]["steps"]],
+                               "case": {"part": "turncred", "rec": r["case"]}})
+            else:
+                ck.drift.append({"what": "TURN client leaves the as-built model (see EXT05)", "why": r["why"]})
+    if stats.get("scenarios", 0) != res["counts"]["RUN"]:
+        raise vlib.ToolError(f"turnclient executed {stats.get('scenarios', 0)} of {res['counts']['RUN']} behaviours")
+    return {"behaviours": res["counts"]["RUN"], "messages_checked": stats.get("wire_checked", 0),
+            "conforming": stats.get("conforming", 0)}
+
+
 def replay(path):
     ck = vlib.Check(PID, "quick", level="exploration")
     vlib.build_harness(["stunwire"])
     with open(path) as f:
         rec = json.load(f)
     ip = os.path.join(ck.dir, "replay_one.ndjson")
-    vlib.write_ndjson(ip, [rec["record"]["case"]])
+    case = rec["record"]["case"]
+    if case.get("part") == "turncred":
+        import EXT05
+        vlib.build_harness(["turnclient"])
+        vlib.write_ndjson(ip, [case["rec"]])
+        rows = EXT05.run_shards("turnclient", ip, ck, "one", shards=1)
+        for r in rows:
+            if r.get("type") == "wire":
+                ck.divergence({"sub": "turn", "rule": "LongTermKeyMatchesRealm", "method": r["detail"].get("method")},
+                              {"rule": "LongTermKeyMatchesRealm", "detail": r["detail"], "case": case})
+        ck.cov.update(states=1, transitions=1, traces_validated_against_impl=1, samples=[case])
+        ck.finish()
+    vlib.write_ndjson(ip, [case])
     stats = run_harness(ck, ip, "one", shards=1)
     ck.cov.update(states=1, transitions=1, traces_validated_against_impl=stats.get("items", 0), samples=[rec["record"]["case"]])
     ck.finish()
@@ -233,4 +306,15 @@ def selftest():
         hit = any("ItemOK" in e for e in res["errors"]) or any("ItemOK" in l for l in res["raw_tail"])
         print(f"selftest: part={part} Deviations={{{dev}}} violates ItemOK: {hit}")
         ok = ok and hit
+    # TURN credential state: a key that is not recomputed when the realm changes must break KeyMatchesRealm
+    import EXT05
+    cfg = os.path.join(vlib.SPEC, "MC_Turn_C16_selftest.gen.cfg")
+    EXT05.write_turn_cfg(cfg, dict(Transports='{"udp"}', Lifetimes="{600}", MaxRefresh=1, MaxDrops=0,
+                                   Reacts='{"ok", "e401r", "e438r"}', AllocLen=2, RefreshFaults=1), emit=False,
+                         deviations='{"StaleKeyOnRealmChange"}')
+    res = vlib.tlc("MC_Turn", os.path.basename(cfg), timeout=600, tag="MC_Turn_C16_selftest")
+    os.remove(cfg)
+    hit = any("KeyMatchesRealm" in e for e in res["errors"]) or any("KeyMatchesRealm" in l for l in res["raw_tail"])
+    print(f"selftest: Turn Deviations={{StaleKeyOnRealmChange}} violates KeyMatchesRealm: {hit}")
+    ok = ok and hit
     raise SystemExit(0 if ok else 2)
